@@ -169,7 +169,7 @@ type c08Write struct {
 }
 
 func C08(run *hx.Run) {
-	run.Rule = "monitor A: PRNG histories (read | committed write)* on ONE long-lived handle pair (high-level DB and low-level Database with explicit RLock/RUnlock); writes by real SQLite in another process drawn from insert / update / delete / bulk growth past the size at open / create+drop table / create+drop index / ALTER TABLE ADD COLUMN / VACUUM / incremental_vacuum / shrink, on databases below and above the 100-page cache; after every write EVERY table, index and the table list are read twice (cache vs file) and compared with SQLite's view of the file at that moment; each commit stamps meta.version so a stale read names the version it saw. monitor B: one sqlittle handle reads in a loop while two writer processes commit unique versions with busy-retry; the client-boundary history (single register) is checked with porcupine; mixed version tags inside one read are torn reads. distinct = (history, step) pairs + porcupine operations"
+	run.Rule = "monitor A: PRNG histories (read | committed write)* on ONE long-lived handle pair (high-level DB and low-level Database with explicit RLock/RUnlock); writes by real SQLite in another process drawn from insert / update / delete / bulk growth past the size at open / create+drop table / create+drop index / ALTER TABLE ADD COLUMN / VACUUM / incremental_vacuum / shrink, on databases below and above the 100-page cache; after every write EVERY table, index and the table list are read twice (cache vs file) and compared with SQLite's view of the file at that moment; each commit stamps meta.version so a stale read names the version it saw. monitor B: one sqlittle handle reads in a loop while two writer processes commit unique versions with busy-retry; the client-boundary history (single register) is checked with porcupine; mixed version tags inside one read are torn reads. monitor C: handles opened on a database without tables (schema format 0), first tables with DESC keys created under them by SQLite, whole-database comparison plus keyed lookups for every stored key after each of three committed states. distinct = (history, step) pairs + porcupine operations"
 	run.Assumptions = append(stdAssumptions, "one sqlittle handle per process in monitor B (the same-process POSIX lock finding of C06 cannot leak in)")
 	dir, cleanup := hx.ScratchDir("C08")
 	defer cleanup()
